@@ -17,8 +17,8 @@ macro "split_step" h:ident : tactic => `(tactic| (
     `hpc : s.s = <constructor>` and an explicit post-state -/
 macro "s_cases" hs:ident s:ident hpc:ident : tactic => `(tactic| (
   rcases $hpc:ident : ($s).s with _ | _ | _ | ⟨(_ | cp | cp | cp | ⟨t, (_ | _ | _)⟩)⟩ | _ | t | t | st | ⟨st, (_ | _ | _)⟩ |
-    k | k | c | c | c | c | ⟨c, e⟩
-  all_goals simp only [stepS, $hpc:ident, hubK, fsK, dispatch, afterIdle, setTask, Bool.false_eq_true, reduceIte] at $hs:ident
+    k | k | c | c | c | c | ⟨c, e⟩ | ⟨t, v⟩ | ⟨t, v, (_ | _ | _)⟩
+  all_goals simp only [stepS, $hpc:ident, hubK, fsK, dispatch, afterIdle, userNext, setTask, Bool.false_eq_true, reduceIte] at $hs:ident
   all_goals split_step $hs))
 
 /-- transitions of the hub thread: `hs : stepH s = some s'` -/
@@ -43,7 +43,7 @@ macro "t_cases" hs:ident s:ident tid:ident hpc:ident : tactic => `(tactic| (
   case' succ.succ => simp only [stepT] at $hs:ident; cases $hs:ident
   case' zero =>
     rcases $hpc:ident : ($s).s with _ | _ | _ | ⟨(_ | cp | cp | cp | ⟨t, p⟩)⟩ | _ | t | t | st | ⟨st, p⟩ |
-      k | k | c | c | c | c | ⟨c, e⟩
+      k | k | c | c | c | c | ⟨c, e⟩ | ⟨t, v⟩ | ⟨t, v, p⟩
     all_goals simp only [stepT, $hpc:ident] at $hs:ident
     all_goals split_step $hs
   case' succ.zero =>
@@ -168,7 +168,7 @@ theorem stepF_A {s s' : State} {i : Nat} (h : InvA s) (hs : stepF s i = some s')
     · rename_i hij
       simp [List.filter_append, hij, h4 j g hg]
 
-theorem init_A (threaded : Bool) (users : List (List Bool)) (progs : List (List Op)) :
+theorem init_A (threaded : Bool) (users : List (List UItem)) (progs : List (List Op)) :
     InvA (Handoff.init threaded users progs) := by
   refine ⟨rfl, by simp [Handoff.init], by simp [Handoff.init], ?_⟩
   intro i f hf
@@ -495,19 +495,19 @@ theorem stepF_Sy {s s' : State} {i : Nat} (h : InvSy s) (hs : stepF s i = some s
       · cases hp
       · exact h5 j g hg hp
 
-theorem init_fs {threaded : Bool} {users : List (List Bool)} {progs : List (List Op)} {i : Nat} {f : FThread}
+theorem init_fs {threaded : Bool} {users : List (List UItem)} {progs : List (List Op)} {i : Nat} {f : FThread}
     (h : (Handoff.init threaded users progs).fs[i]? = some f) : ∃ p, f = { prog := p } := by
   simp only [Handoff.init, List.getElem?_map] at h
   rcases hp : progs[i]? with _ | p
   · simp [hp] at h
   · simp [hp] at h; exact ⟨p, h.symm⟩
 
-theorem init_view (threaded : Bool) (users : List (List Bool)) (progs : List (List Op)) (k : Nat) :
+theorem init_view (threaded : Bool) (users : List (List UItem)) (progs : List (List Op)) (k : Nat) :
     viewT (Handoff.init threaded users progs).tasks k = none := by
   simp only [Handoff.init, viewT, List.getElem?_map]
   rcases users[k]? with _ | u <;> simp [syncView]
 
-theorem init_Sy (threaded : Bool) (users : List (List Bool)) (progs : List (List Op)) :
+theorem init_Sy (threaded : Bool) (users : List (List UItem)) (progs : List (List Op)) :
     InvSy (Handoff.init threaded users progs) := by
   refine ⟨?_, ?_, ?_, ?_, ?_⟩
   · intro i f hf hw; obtain ⟨p, rfl⟩ := init_fs hf; simp [waitingSync] at hw
